@@ -556,187 +556,196 @@ def run(c):
     c.cov["model_compared"] = "repaired code (parse_amount_fixed / print_amount_fixed)" if R.fixed else \
         "code as shipped (parse_amount / print_amount); repair entries still under 'known' in findings/C06.json"
 
-    # ---------------- strings ----------------
-    strings = []   # (stream, s)
-    for name, ln in load_corpus():
-        vs = parse_wire(ln)
-        if vs and vs[0] == b"str":
-            strings.append(("corpus", vs[1]))
-    nm = 650 if quick else 13000
-    members = [gen_member(rng) for _ in range(nm)]
+    # thorough = 20 rounds of the quick-size batch (fresh draws from the same PRNG; memory stays bounded)
     kinds = {}
-    for i, m in enumerate(members):
-        strings.append(("members", m))
-        if rng.random() < 0.5:
-            strings.append(("members", m + b"%"))
-        base = m if i % 3 else m + b"%"          # a third of the near misses are made from percentage members
-        if len(base) > 24 and i % 4:
-            continue                               # long members: near misses of one in four
-        for kind, sym, s in near_misses(base):
-            strings.append(("near-miss/" + kind, s))
-            k = kind + " " + sym if kind != "delete" else "delete"
-            kinds[k] = kinds.get(k, 0) + 1
-    for _ in range(25000 if quick else 500000):     # members only: the accepting paths, value and precision
-        m = gen_member(rng)
-        strings.append(("members", m + b"%" if rng.random() < 0.3 else m))
-    for s in boundary_strings(rng, quick):
-        strings.append(("boundary-2^63", s))
-        strings.append(("boundary-2^63", s + b"%"))
-    for s in random_strings(rng, 15000 if quick else 300000):
-        strings.append(("random-bytes", s))
-    for raw in JSON_RAW:
-        strings.append(("json-tokens", raw))
-    # no newline / carriage return can travel in a wire line... they travel as hex, so anything goes
-    lines, meta = [], []
-    for stream, s in strings:
-        enc = json_encodings(rng, s)
-        lines.append(all_line(s, enc, R.fixed))
-        meta.append((stream, s, enc))
-    t0 = time.time()
-    go = run_go(lines)
-    t1 = time.time()
-    mo = run_oracle(lines)
-    log('strings: %d lines, go %.1fs oracle %.1fs' % (len(lines), t1 - t0, time.time() - t1))
-    t0 = time.time()
-    for (stream, s, enc), g, m in zip(meta, go, mo):
-        c.count(stream, 1, s)
-        judge_all(R, stream, s, enc, g, m)
-    log('judged strings in %.1fs' % (time.time() - t0))
-    # bare JSON tokens through the struct field (only tokens that are one JSON value)
-    fl, fm = [], []
-    for stream, s in strings:
-        if stream in ("json-tokens", "members", "boundary-2^63", "corpus") and json_value(s) is not None:
-            fl.append("c06 parse_field " + hx(s))
-            fm.append((s, False))
-            fl.append("c06 pct_parse_field " + hx(s))
-            fm.append((s, True))
-    for (s, pct), g in zip(fm, run_go(fl)):
-        r = dec(g.split())
-        c.count("struct-field/bare-token", 1, (s, pct))
-        R.verdict("struct field bare " + ("Percentage" if pct else "Amount"), r)
-        j = judge_json(s, r, pct)
-        if j:
-            R.bad("struct field (bare token) " + ("Percentage" if pct else "Amount"), s, j,
-                  {"case": "c06 " + ("pct_parse_field " if pct else "parse_field ") + hx(s), "raw": s})
-    c.cov["near_miss_kinds"] = kinds
-    c.cov["strings"] = len(strings)
+    rounds = 1 if quick else 20
+    for rd in range(rounds):
+        if rounds > 1:
+            log("round %d/%d" % (rd + 1, rounds))
+        # ---------------- strings ----------------
+        strings = []   # (stream, s)
+        for name, ln in (load_corpus() if rd == 0 else []):
+            vs = parse_wire(ln)
+            if vs and vs[0] == b"str":
+                strings.append(("corpus", vs[1]))
+        members = [gen_member(rng) for _ in range(650)]
+        for i, m in enumerate(members):
+            strings.append(("members", m))
+            if rng.random() < 0.5:
+                strings.append(("members", m + b"%"))
+            base = m if i % 3 else m + b"%"          # a third of the near misses are made from percentage members
+            if len(base) > 24 and i % 4:
+                continue                               # long members: near misses of one in four
+            for kind, sym, s in near_misses(base):
+                strings.append(("near-miss/" + kind, s))
+                k = kind + " " + sym if kind != "delete" else "delete"
+                kinds[k] = kinds.get(k, 0) + 1
+        for _ in range(25000):     # members only: the accepting paths, value and precision
+            m = gen_member(rng)
+            strings.append(("members", m + b"%" if rng.random() < 0.3 else m))
+        for s in boundary_strings(rng, True):
+            strings.append(("boundary-2^63", s))
+            strings.append(("boundary-2^63", s + b"%"))
+        for s in random_strings(rng, 15000):
+            strings.append(("random-bytes", s))
+        for raw in JSON_RAW:
+            strings.append(("json-tokens", raw))
+        # no newline / carriage return can travel in a wire line... they travel as hex, so anything goes
+        lines, meta = [], []
+        for stream, s in strings:
+            enc = json_encodings(rng, s)
+            lines.append(all_line(s, enc, R.fixed))
+            meta.append((stream, s, enc))
+        t0 = time.time()
+        go = run_go(lines)
+        t1 = time.time()
+        mo = run_oracle(lines)
+        log('strings: %d lines, go %.1fs oracle %.1fs' % (len(lines), t1 - t0, time.time() - t1))
+        t0 = time.time()
+        for (stream, s, enc), g, m in zip(meta, go, mo):
+            c.count(stream, 1, s)
+            judge_all(R, stream, s, enc, g, m)
+        log('judged strings in %.1fs' % (time.time() - t0))
+        # bare JSON tokens through the struct field (only tokens that are one JSON value)
+        fl, fm = [], []
+        for stream, s in strings:
+            if stream in ("json-tokens", "members", "boundary-2^63", "corpus") and json_value(s) is not None:
+                fl.append("c06 parse_field " + hx(s))
+                fm.append((s, False))
+                fl.append("c06 pct_parse_field " + hx(s))
+                fm.append((s, True))
+        for (s, pct), g in zip(fm, run_go(fl)):
+            r = dec(g.split())
+            c.count("struct-field/bare-token", 1, (s, pct))
+            R.verdict("struct field bare " + ("Percentage" if pct else "Amount"), r)
+            j = judge_json(s, r, pct)
+            if j:
+                R.bad("struct field (bare token) " + ("Percentage" if pct else "Amount"), s, j,
+                      {"case": "c06 " + ("pct_parse_field " if pct else "parse_field ") + hx(s), "raw": s})
+        c.cov["near_miss_kinds"] = kinds
+        c.cov["strings"] = c.cov.get("strings", 0) + len(strings)
+        if rd == 0:
+            first_lines, first_strings = lines, strings
 
-    # ---------------- amounts ----------------
-    ams = [("corpus", vs[1][0], vs[1][1]) for _, ln in load_corpus() for vs in [parse_wire(ln)] if vs and vs[0] == b"amount"]
-    ncorp = len(ams)
-    ams += amounts(rng, quick)
-    fx = " 1" if R.fixed else ""
-    fxn = 1 if R.fixed else 0
-    pl, pmeta = [], []
-    for i, (stream, v, e) in enumerate(ams):
-        pl.append("c06 print ( %d %d )%s" % (v, e, fx))
-        pmeta.append((stream, v, e, False))
-        if i < ncorp or stream != "amounts/random" or i % 3 == 0:     # percentages: corpus, boundary, a third of the random ones
-            pl.append("c06 pct_print ( %d %d )%s" % (v, e, fx))
-            pmeta.append((stream, v, e, True))
-    t0 = time.time()
-    gp = run_go(pl)
-    t1 = time.time()
-    mp = run_oracle(pl)
-    log('amounts: %d lines, go %.1fs oracle %.1fs' % (len(pl), t1 - t0, time.time() - t1))
-    reread, reread_meta = [], []
-    for line, (stream, v, e, pct), g, m in zip(pl, pmeta, gp, mp):
-        indom = e <= 18
-        it = items(g)
-        if not pct:
-            c.count(stream, 1, (v, e))
-            if g != m:
-                R.mismatch(stream + "/String", line, g, m)
-            if not indom:
-                continue
-            if len(it) == 2 and it[0][1] == "x6f6b":
-                text = bytes.fromhex(it[0][2][1:])
-                mini = bytes.fromhex(it[1][2][1:]) if it[1][1] == "x6f6b" else None
-                rp = {"case": line, "amount": [v, e], "printed": text}
-                fid = F_MIN if v == -T63 else None
-                if not member(text):
-                    R.bad("Amount.String", text, ("prints text that is not in the pattern: %r for (%d, %d)" % (text, v, e), fid), rp)
-                elif denote(text) != (v, e):
-                    R.bad("Amount.String", text, ("prints text denoting another amount: %r denotes %r, not %r" % (text, denote(text), (v, e)), fid), rp)
-                okm = mini is not None and member(mini) and Fraction(denote(mini)[0], 10 ** denote(mini)[1]) == Fraction(v, 10 ** e) and \
-                    not (b"." in mini and mini.endswith(b"0"))
-                if not okm:
-                    R.bad("Amount.MinimalString", mini or b"", ("MinimalString is not the shortest member of equal value: %r for (%d, %d)" % (mini, v, e), fid), rp)
-                reread.append("c06 all_a %s %s %d" % (hx(text), hx(b'"' + text + b'"'), fxn))
-                reread_meta.append((stream, v, e, text, False))
+        # ---------------- amounts ----------------
+        ams = [("corpus", vs[1][0], vs[1][1]) for _, ln in (load_corpus() if rd == 0 else []) for vs in [parse_wire(ln)]
+               if vs and vs[0] == b"amount"]
+        ncorp = len(ams)
+        ams += amounts(rng, True)
+        fx = " 1" if R.fixed else ""
+        fxn = 1 if R.fixed else 0
+        pl, pmeta = [], []
+        for i, (stream, v, e) in enumerate(ams):
+            pl.append("c06 print ( %d %d )%s" % (v, e, fx))
+            pmeta.append((stream, v, e, False))
+            if i < ncorp or stream != "amounts/random" or i % 3 == 0:     # percentages: corpus, boundary, a third of the random ones
+                pl.append("c06 pct_print ( %d %d )%s" % (v, e, fx))
+                pmeta.append((stream, v, e, True))
+        t0 = time.time()
+        gp = run_go(pl)
+        t1 = time.time()
+        mp = run_oracle(pl)
+        log('amounts: %d lines, go %.1fs oracle %.1fs' % (len(pl), t1 - t0, time.time() - t1))
+        reread, reread_meta = [], []
+        for line, (stream, v, e, pct), g, m in zip(pl, pmeta, gp, mp):
+            indom = e <= 18
+            it = items(g)
+            if not pct:
+                c.count(stream, 1, (v, e))
+                if g != m:
+                    R.mismatch(stream + "/String", line, g, m)
+                if not indom:
+                    continue
+                if len(it) == 2 and it[0][1] == "x6f6b":
+                    text = bytes.fromhex(it[0][2][1:])
+                    mini = bytes.fromhex(it[1][2][1:]) if it[1][1] == "x6f6b" else None
+                    rp = {"case": line, "amount": [v, e], "printed": text}
+                    fid = F_MIN if v == -T63 else None
+                    if not member(text):
+                        R.bad("Amount.String", text, ("prints text that is not in the pattern: %r for (%d, %d)" % (text, v, e), fid), rp)
+                    elif denote(text) != (v, e):
+                        R.bad("Amount.String", text, ("prints text denoting another amount: %r denotes %r, not %r" % (text, denote(text), (v, e)), fid), rp)
+                    okm = mini is not None and member(mini) and Fraction(denote(mini)[0], 10 ** denote(mini)[1]) == Fraction(v, 10 ** e) and \
+                        not (b"." in mini and mini.endswith(b"0"))
+                    if not okm:
+                        R.bad("Amount.MinimalString", mini or b"", ("MinimalString is not the shortest member of equal value: %r for (%d, %d)" % (mini, v, e), fid), rp)
+                    reread.append("c06 all_a %s %s %d" % (hx(text), hx(b'"' + text + b'"'), fxn))
+                    reread_meta.append((stream, v, e, text, False))
+                else:
+                    R.bad("Amount.String", b"", ("String() fails: (%d, %d) gives %s" % (v, e, g), None), {"case": line, "amount": [v, e]})
             else:
-                R.bad("Amount.String", b"", ("String() fails: (%d, %d) gives %s" % (v, e, g), None), {"case": line, "amount": [v, e]})
-        else:
-            c.count(stream.replace("amounts", "percentages"), 1, (v, e))
-            big = abs(v) * 100 >= T52
-            if g != m:
-                if big:
+                c.count(stream.replace("amounts", "percentages"), 1, (v, e))
+                big = abs(v) * 100 >= T52
+                if g != m:
+                    if big:
+                        c.count("out-of-float-domain percentage (informational)", 1)
+                    else:
+                        R.mismatch(stream + "/Percentage.String", line, g, m)
+                if not indom:
+                    continue
+                if len(it) == 1 and it[0][1] == "x6f6b":
+                    text = bytes.fromhex(it[0][2][1:])
+                    rp = {"case": line, "percentage": [v, e], "printed": text}
+                    fid = F_PCTBIG if big else None
+                    if not PCT_RE.match(text):
+                        R.bad("Percentage.String", text, ("prints text that is not in the pattern: %r for (%d, %d)" % (text, v, e), fid), rp)
+                    elif Fraction(denote(text[:-1])[0], 10 ** (denote(text[:-1])[1] + 2)) != Fraction(v, 10 ** e):
+                        R.bad("Percentage.String", text, ("prints text denoting another percentage: %r for (%d, %d)" % (text, v, e), fid), rp)
+                    reread.append("c06 all_p %s %s %d" % (hx(text), hx(b'"' + text + b'"'), fxn))
+                    reread_meta.append((stream, v, e, text, True))
+                else:
+                    R.bad("Percentage.String", b"", ("String() fails: (%d, %d) gives %s" % (v, e, g), F_PCTBIG if big else None),
+                          {"case": line, "percentage": [v, e]})
+        t0 = time.time()
+        g2 = run_go(reread)
+        t1 = time.time()
+        m2 = run_oracle(reread)
+        log('re-read: %d lines, go %.1fs oracle %.1fs' % (len(reread), t1 - t0, time.time() - t1))
+        t0 = time.time()
+        stab, stab_meta = [], []
+        for line, (stream, v, e, text, pct), g, m in zip(reread, reread_meta, g2, m2):
+            c.count("re-read of printed text", 1, (text, pct))
+            gpre = g.rsplit(FSEP, 1)[0]
+            gi = items(gpre)
+            if len(gi) != 3:
+                R.mismatch(stream + "/re-read", line, g, m)
+                continue
+            r = [dec(x) for x in gi]
+            if gpre != m.rsplit(FSEP, 1)[0]:
+                if pct and all(x == y or pct_out_of_float_domain(x, y) for x, y in zip(gi, items(m.rsplit(FSEP, 1)[0]))):
                     c.count("out-of-float-domain percentage (informational)", 1)
                 else:
-                    R.mismatch(stream + "/Percentage.String", line, g, m)
-            if not indom:
-                continue
-            if len(it) == 1 and it[0][1] == "x6f6b":
-                text = bytes.fromhex(it[0][2][1:])
-                rp = {"case": line, "percentage": [v, e], "printed": text}
-                fid = F_PCTBIG if big else None
-                if not PCT_RE.match(text):
-                    R.bad("Percentage.String", text, ("prints text that is not in the pattern: %r for (%d, %d)" % (text, v, e), fid), rp)
-                elif Fraction(denote(text[:-1])[0], 10 ** (denote(text[:-1])[1] + 2)) != Fraction(v, 10 ** e):
-                    R.bad("Percentage.String", text, ("prints text denoting another percentage: %r for (%d, %d)" % (text, v, e), fid), rp)
-                reread.append("c06 all_p %s %s %d" % (hx(text), hx(b'"' + text + b'"'), fxn))
-                reread_meta.append((stream, v, e, text, True))
+                    R.mismatch(stream + "/re-read", line, g, m)
+            fi = items(g.rsplit(FSEP, 1)[1].rsplit(")", 1)[0])
+            rf = dec(fi[0]) if len(fi) == 1 else None
+            rp = {"case": line, ("percentage" if pct else "amount"): [v, e], "printed": text}
+            if not pct:
+                fid = F_MIN if v == -T63 else None
+                for nmz, rr in (("UnmarshalText", r[0]), ("UnmarshalJSON(bare)", r[1]), ("UnmarshalJSON(quoted)", r[2]), ("struct field", rf)):
+                    if rr != (v, e):
+                        R.bad("round trip Amount " + nmz, text, ("printed text reads back as another amount: (%d, %d) prints as %r and reads back as %r"
+                                                                 % (v, e, text, rr), fid), rp)
             else:
-                R.bad("Percentage.String", b"", ("String() fails: (%d, %d) gives %s" % (v, e, g), F_PCTBIG if big else None),
-                      {"case": line, "percentage": [v, e]})
-    t0 = time.time()
-    g2 = run_go(reread)
-    t1 = time.time()
-    m2 = run_oracle(reread)
-    log('re-read: %d lines, go %.1fs oracle %.1fs' % (len(reread), t1 - t0, time.time() - t1))
-    t0 = time.time()
-    stab, stab_meta = [], []
-    for line, (stream, v, e, text, pct), g, m in zip(reread, reread_meta, g2, m2):
-        c.count("re-read of printed text", 1, (text, pct))
-        gpre = g.rsplit(FSEP, 1)[0]
-        gi = items(gpre)
-        if len(gi) != 3:
-            R.mismatch(stream + "/re-read", line, g, m)
-            continue
-        r = [dec(x) for x in gi]
-        if gpre != m.rsplit(FSEP, 1)[0]:
-            if pct and all(x == y or pct_out_of_float_domain(x, y) for x, y in zip(gi, items(m.rsplit(FSEP, 1)[0]))):
-                c.count("out-of-float-domain percentage (informational)", 1)
-            else:
-                R.mismatch(stream + "/re-read", line, g, m)
-        fi = items(g.rsplit(FSEP, 1)[1].rsplit(")", 1)[0])
-        rf = dec(fi[0]) if len(fi) == 1 else None
-        rp = {"case": line, ("percentage" if pct else "amount"): [v, e], "printed": text}
-        if not pct:
-            fid = F_MIN if v == -T63 else None
-            for nmz, rr in (("UnmarshalText", r[0]), ("UnmarshalJSON(bare)", r[1]), ("UnmarshalJSON(quoted)", r[2]), ("struct field", rf)):
-                if rr != (v, e):
-                    R.bad("round trip Amount " + nmz, text, ("printed text reads back as another amount: (%d, %d) prints as %r and reads back as %r"
-                                                             % (v, e, text, rr), fid), rp)
-        else:
-            nt = denote(text[:-1])[0] if PCT_RE.match(text) else 0
-            fid = F_PCTBIG if max(abs(v), abs(nt)) * 100 >= T52 else None
-            for nmz, rr in (("UnmarshalText", r[0]), ("UnmarshalJSON(quoted)", r[2]), ("struct field", rf)):
-                if not (is_ok(rr) and Fraction(rr[0], 10 ** rr[1]) == Fraction(v, 10 ** e) and rr[1] == max(e, 2)):
-                    R.bad("round trip Percentage " + nmz, text, ("printed text reads back as another percentage: (%d, %d) prints as %r and reads "
-                                                                 "back as %r" % (v, e, text, rr), fid), rp)
-            if is_ok(r[0]):
-                stab.append("c06 pct_print ( %d %d )%s" % (r[0][0], r[0][1], fx))
-                stab_meta.append((v, e, text, r[0], fid))
-    log('judged re-read in %.1fs' % (time.time() - t0))
-    g3 = run_go(stab)
-    for (v, e, text, r, fid), g in zip(stab_meta, g3):
-        c.count("percentage text stability", 1, text)
-        it = items(g)
-        t2 = bytes.fromhex(it[0][2][1:]) if it and len(it[0]) > 2 and it[0][1] == "x6f6b" else None
-        if t2 != text:
-            R.bad("Percentage text stability", text, ("text not stable: (%d, %d) prints %r, reads back %r which prints %r" % (v, e, text, r, t2), fid),
-                  {"case": "c06 pct_print ( %d %d )" % (v, e), "percentage": [v, e], "printed": text, "reread": list(r), "reprinted": t2})
+                nt = denote(text[:-1])[0] if PCT_RE.match(text) else 0
+                fid = F_PCTBIG if max(abs(v), abs(nt)) * 100 >= T52 else None
+                for nmz, rr in (("UnmarshalText", r[0]), ("UnmarshalJSON(quoted)", r[2]), ("struct field", rf)):
+                    if not (is_ok(rr) and Fraction(rr[0], 10 ** rr[1]) == Fraction(v, 10 ** e) and rr[1] == max(e, 2)):
+                        R.bad("round trip Percentage " + nmz, text, ("printed text reads back as another percentage: (%d, %d) prints as %r and reads "
+                                                                     "back as %r" % (v, e, text, rr), fid), rp)
+                if is_ok(r[0]):
+                    stab.append("c06 pct_print ( %d %d )%s" % (r[0][0], r[0][1], fx))
+                    stab_meta.append((v, e, text, r[0], fid))
+        log('judged re-read in %.1fs' % (time.time() - t0))
+        if rd == 0:
+            first_pl, first_ams = pl, ams
+        g3 = run_go(stab)
+        for (v, e, text, r, fid), g in zip(stab_meta, g3):
+            c.count("percentage text stability", 1, text)
+            it = items(g)
+            t2 = bytes.fromhex(it[0][2][1:]) if it and len(it[0]) > 2 and it[0][1] == "x6f6b" else None
+            if t2 != text:
+                R.bad("Percentage text stability", text, ("text not stable: (%d, %d) prints %r, reads back %r which prints %r" % (v, e, text, r, t2), fid),
+                      {"case": "c06 pct_print ( %d %d )" % (v, e), "percentage": [v, e], "printed": text, "reread": list(r), "reprinted": t2})
 
     # ---------------- evidence ----------------
     c.cov["verdicts_by_entry_point"] = R.verdict_table()
@@ -753,11 +762,11 @@ def run(c):
     rej = sum(d.get("err", 0) for d in R.verdicts.values())
     if not acc or not rej or not kinds or len(kinds) < 2 * len(ALPHABET):
         c.report("generator degenerate: accepted=%d rejected=%d near-miss kinds=%d" % (acc, rej, len(kinds)), {"machinery": "generator"}, no_input=True)
-    for st, s in strings[:: max(1, len(strings) // 4)][:4]:
+    for st, s in first_strings[:: max(1, len(first_strings) // 4)][:4]:
         c.sample({"stream": st, "string": s})
-    c.sample({"stream": ams[len(ams) // 2][0], "amount": list(ams[len(ams) // 2][1:])})
+    c.sample({"stream": first_ams[len(first_ams) // 2][0], "amount": list(first_ams[len(first_ams) // 2][1:])})
     # vm_compute cross-check of the extraction on a sample
-    samp = lines[:: max(1, len(lines) // 150)][:150] + pl[:: max(1, len(pl) // 50)][:50]
+    samp = first_lines[:: max(1, len(first_lines) // 150)][:150] + first_pl[:: max(1, len(first_pl) // 50)][:50]
     try:
         inq = coq_eval(samp)
         mo_s = run_oracle(samp, shards=1)
